@@ -74,6 +74,16 @@ def gen(tape):
         for _ in range(tape.weighted("faults", [(5, 0), (3, 1), (1, 2)], "n-events")):
             spec["events"].append([tape.choice("faults", GRID, "event-time"),
                                    tape.choice("faults", ("stop", "sigint", "sigterm"), "event-kind")])
+        if r > 0:
+            # one of this call's delayed calls fires a Deferred that an *earlier* call left unfired (it timed
+            # out or was interrupted): a late result of that call, none of this one's business
+            fo = tape.weighted("program", [(6, None), (1, "value"), (1, "fail")], "fire-earlier-calls-deferred")
+            if fo:
+                if not spec["extras"]:
+                    spec["extras"].append(tape.choice("program", GRID, "extra-delay"))
+                spec["fire_old"] = [fo, tape.draw("program", len(spec["extras"]), "which-extra")]
+            # ... and the call may be made through another Spinner on the same reactor
+            spec["other_spinner"] = tape.chance("program", 1, 6, "another-spinner")
         if tape.chance("faults", 1, 5, "stall"):
             # clock jump: the reactor finds several timed calls due at once
             spec["events"].append([tape.choice("faults", (0, 1, 2), "stall-at"), "stall:%d" % tape.choice("faults", (1, 2, 4, 9), "stall-by")])
@@ -108,8 +118,11 @@ def run_one(tape, opts):
     try:
         junk_model = False     # is there uncleared junk according to the model?
         for r, spec in enumerate(runs):
-            rec = _one_call(out, r, spec, pre, sim, reactor, spinner, stop_before, junk_model, hist)
-            junk_model = rec["junk_after"]
+            if spec.get("other_spinner"):
+                rec = _one_call(out, r, spec, pre, sim, reactor, sp.Spinner(reactor, debug=debug), stop_before, False, hist)
+            else:
+                rec = _one_call(out, r, spec, pre, sim, reactor, spinner, stop_before, junk_model, hist)
+                junk_model = rec["junk_after"]
             hist.append(rec)
             if rec.get("fatal"):
                 break
@@ -136,6 +149,10 @@ def run_one(tape, opts):
             out.probe("guard:" + rec["guard"])
         if rec.get("carried"):
             out.probe("stop-request-carried-over-from-earlier-call")
+        if rec.get("fired_old"):
+            out.probe("earlier-calls-deferred-fired-during-this-call")
+        if rec["spec"].get("other_spinner"):
+            out.probe("call-through-another-spinner")
     out.steps = sim.iterations
     out.sim_time = float(sim.now)
     out.ihash = digest_of([(rec["fired"]) for rec in hist])
@@ -155,7 +172,7 @@ def _rel(a, b):
 
 def _one_call(out, r, spec, pre, sim, reactor, spinner, stop_before, junk_model, hist):
     rec = {"spec": spec, "fired": [], "allowed": set(), "got": None, "got_class": "?", "rel_event": None,
-           "junk_after": junk_model}
+           "junk_after": junk_model, "r": r}
     if spec["clear_junk_before"]:
         spinner.clear_junk()
         junk_model = False
@@ -178,10 +195,26 @@ def _one_call(out, r, spec, pre, sim, reactor, spinner, stop_before, junk_model,
             inner_obs["reentry"] = type(e).__name__
         inner_obs["nested_called"] = bool(nested)
 
+    def fire_old(i):
+        extras_fired.append(i)
+        for h in reversed(hist):
+            od = h.get("deferred")
+            if od is not None and not od.called:
+                rec["fired_old"] = True
+                if spec["fire_old"][0] == "value":
+                    od.callback(("value", "late result of call", h["r"]))
+                else:
+                    od.errback(RuntimeError(f"own-exception-{h['r']}-late"))
+                    od.addErrback(lambda f: None)     # (whoever fires it late also deals with the failure)
+                return
+
     def function():
         called.append(sim.now)
         for i, d in enumerate(spec["extras"]):
-            created["extras"].append(reactor.callLater(d, extras_fired.append, i))
+            if spec.get("fire_old") and spec["fire_old"][1] == i:
+                created["extras"].append(reactor.callLater(d, fire_old, i))
+            else:
+                created["extras"].append(reactor.callLater(d, extras_fired.append, i))
         for i in range(spec["selectables"]):
             s = FakeSelectable(f"sel{r}.{i}")
             created["selectables"].append(s)
@@ -206,6 +239,7 @@ def _one_call(out, r, spec, pre, sim, reactor, spinner, stop_before, junk_model,
         if k == "failed":
             return defer.fail(exc)
         d = defer.Deferred()
+        rec["deferred"] = d
         if k == "later_fire" and spec["reentrant"] == "after-fire":
             def fire_then_reenter():
                 d.callback(value)
@@ -371,11 +405,11 @@ def _one_call(out, r, spec, pre, sim, reactor, spinner, stop_before, junk_model,
     legit = [dc for i, dc in enumerate(created["extras"]) if i not in extras_fired] + created["selectables"]
     if fc is not None:
         legit.append(fc)
-    legit.append(spinner._timeout_call)   # Spinner's own timeout call (cancelled) may be listed
+    legit.append(getattr(spinner, "_timeout_call", None))   # Spinner's own timeout call (cancelled) may be listed
     for j in junk:
         if not any(j is x for x in legit):
             out.violate("junk-unreported", "spurious-junk", f"call {r}: {j!r} reported as junk but it was not left over")
-    tc_junk = any(j is spinner._timeout_call for j in junk)
+    tc_junk = any(j is getattr(spinner, "_timeout_call", None) for j in junk)
     if tc_junk and cls not in ("NoResultError",):
         out.violate("junk-unreported", "timeout-call-left-pending", f"call {r}: result {cls} but Spinner's timeout call was still pending at clean-up")
     if reactor.stop != stop_before:
